@@ -24,9 +24,11 @@ pub fn mon() -> Mon {
 
 fn plan(cfg: &RunCfg) -> EncPlan {
     let mut p = EncPlan::new(&REQUEST_FORMS);
+    // the body does not depend on where the packet goes: the destination is swept as the byte parameter it is
+    p.addr7 = false;
     p.random_per_form = cfg.pick(40_000, 2_000_000);
     p.param_sweep_reps = cfg.pick(24, 200) as u32;
-    p.addr_sweep_reps = cfg.pick(1, 10) as u32;
+    p.addr_sweep_reps = cfg.pick(3, 20) as u32;
     p
 }
 
